@@ -1597,6 +1597,9 @@ pub fn c12_hash(base_seed: u64, i: u64, _g: &GenCtx) -> Plan {
                 };
                 data.push(DataSpec::Random { seed: r.next(), len: klen });
                 f.keyed = Some(data.len() - 1);
+                if r.chance(1, 4) {
+                    f.stdin_split = Some(1 + r.below(31) as u8);
+                }
             }
             1 => {
                 data.push(DataSpec::Random { seed: r.next(), len: r.usize_below(30) });
@@ -1863,4 +1866,59 @@ pub fn c04_giant(base_seed: u64, i: u64, g: &GenCtx) -> Plan {
 }
 pub fn c04_cluster(base_seed: u64, i: u64, g: &GenCtx) -> Plan {
     as_c04(c09(base_seed ^ 0x4004, i, g), "c04-c09")
+}
+
+
+// ---------------------------------------------------------------------------------------------
+// C07: native code stays inside its buffers and obeys the calling convention
+
+pub fn c07_kernels(base_seed: u64, i: u64, _g: &GenCtx) -> Plan {
+    let seed = mix(base_seed ^ 0xC07, i);
+    let mut r = Rng::new(seed);
+    let nk = crate::kernels::table_len();
+    let mut ops = Vec::new();
+    for _ in 0..(1 + r.usize_below(6)) {
+        let k = r.usize_below(nk);
+        let counter = match r.below(6) {
+            0 => 0,
+            1 => (1u64 << 32) - 1 - r.below(20),
+            2 => u64::MAX - 40 - r.below(40),
+            3 => r.below(1000),
+            _ => r.next() >> r.below(64),
+        };
+        let a = KArgs {
+            n: match r.below(5) {
+                0 => r.usize_below(3),
+                _ => r.usize_below(34),
+            },
+            blocks16: r.chance(1, 2),
+            counter,
+            incr: r.chance(1, 2),
+            flags: r.next() as u8,
+            fs: r.next() as u8,
+            fe: r.next() as u8,
+            block_len: r.below(65) as u8,
+            places: r.next() as u32,
+            seed: r.next(),
+        };
+        ops.push(Op::Kernel { k, a });
+    }
+    single("C07", "c07-kernels", seed, Cfg { guard_alloc: true, ..Cfg::default() }, Vec::new(), Level::Detect, ops)
+}
+
+pub fn c07_capi(base_seed: u64, i: u64, g: &GenCtx) -> Plan {
+    let mut p = c06(base_seed ^ 0x707, i, g);
+    p.prop = "C07".into();
+    p.family = "c07-c-api".into();
+    p.cfg.guard_alloc = true;
+    p
+}
+
+pub fn c07_rustapi(base_seed: u64, i: u64, g: &GenCtx) -> Plan {
+    // single-task hasher / reader histories of C03 and C11 with every caller buffer guard-placed
+    let mut p = if i % 2 == 0 { c03(base_seed ^ 0x707, i, g) } else { c11_reader(base_seed ^ 0x707, i * 13, g) };
+    p.prop = "C07".into();
+    p.family = "c07-rust-api".into();
+    p.cfg.guard_alloc = true;
+    p
 }
